@@ -334,7 +334,9 @@ impl Scenario for C05Bucket {
         400
     }
     fn plan(&self, r: &mut Rng, tier: Tier) -> Plan {
-        let prefill = *r.pick(&[0u32, 0, 1, 2, 61, 62, 63, 63, 64, 65, 126, 127, 128]);
+        // mostly next to a block boundary; rarely more than 32 blocks (the clear path reclaims
+        // detached blocks in batches of 32)
+        let prefill = if r.chance(30) { *r.pick(&[2049u32, 2113, 2176, 4161]) } else { *r.pick(&[0u32, 0, 1, 2, 61, 62, 63, 63, 64, 65, 126, 127, 128]) };
         let nthreads = r.range(2, 4) as usize;
         let max_ops = if tier == Tier::Thorough { 12 } else { 8 };
         let mut threads = vec![];
